@@ -10,12 +10,12 @@
 use std::collections::{BTreeMap, BTreeSet};
 
 use bytesize::ByteSize;
-use rustic_core::repofile::{FileType, IndexFile, Metadata, Node, NodeType, SnapshotFile};
+use rustic_core::repofile::{Chunker, FileType, IndexFile, Metadata, Node, NodeType, SnapshotFile};
 use rustic_core::{BackupOptions, ConfigOptions, Id, KeyOptions, LsOptions, PruneOptions, RepairIndexOptions, RepairSnapshotsOptions, RusticResult, last_modified_node};
 
 use super::c02::hist::{check_errors_retry, source};
 use super::c02::{decode_index_files, parse_opts};
-use crate::repo::{self, LogOp, MemBackend, MemSource, RepoHandle, Store};
+use crate::repo::{self, LogOp, MemBackend, MemSource, RepoHandle, SrcEntry, Store};
 use crate::util::{Rng, Stats, guarded};
 
 /// (`config` is not generated: `MemBackend` keys config files by id, so a changed config shows up as a second
@@ -187,6 +187,9 @@ pub fn closures(h: &RepoHandle, everything: &Store) -> Result<BTreeMap<Id, Optio
 struct Namer {
     files: BTreeMap<Id, usize>,
     blobs: BTreeMap<Id, usize>,
+    /// `Some`: name blobs by occurrence class (see `abstract_tokens_classes`)
+    class_of: Option<BTreeMap<(bool, Id), Vec<(u8, Id, usize)>>>,
+    classes: BTreeMap<(bool, Vec<(u8, Id, usize)>), usize>,
 }
 impl Namer {
     fn f(&mut self, id: &Id) -> usize {
@@ -196,6 +199,19 @@ impl Namer {
     fn keys(&mut self, ks: &[(bool, Id)]) -> String {
         if ks.is_empty() {
             return "-".into();
+        }
+        if let Some(occ) = &self.class_of {
+            let mut seen = BTreeSet::new();
+            let mut v = vec![];
+            for k in ks {
+                let places = occ.get(k).cloned().unwrap_or_default();
+                let n = self.classes.len() + 1;
+                let c = *self.classes.entry((k.0, places)).or_insert(n);
+                if seen.insert((k.0, c)) {
+                    v.push(format!("{}{}", if k.0 { "t" } else { "d" }, c));
+                }
+            }
+            return v.join(".");
         }
         let v: Vec<String> = ks
             .iter()
@@ -217,6 +233,18 @@ pub fn abstract_trace(h: &RepoHandle, before: &Store, after: &Store, log: &[LogO
 
 /// as `abstract_trace`, tokens not joined (one token per *applied* log entry)
 pub fn abstract_tokens(h: &RepoHandle, before: &Store, after: &Store, log: &[LogOp]) -> Result<(Vec<String>, Vec<String>), String> {
+    abstract_tokens_with(h, before, after, log, false)
+}
+
+/// as `abstract_tokens`, but blob keys are replaced by their *occurrence class*: two blobs of one type that occur in exactly
+/// the same pack files, index entries and snapshot closures are the same abstract key.  `Repo.consistent` only asks, per
+/// key, in which of these places it occurs, so the verdict of the monitor at every prefix is the same — and a trace over
+/// 50 000 blobs stays a few hundred tokens long.
+pub fn abstract_tokens_classes(h: &RepoHandle, before: &Store, after: &Store, log: &[LogOp]) -> Result<(Vec<String>, Vec<String>), String> {
+    abstract_tokens_with(h, before, after, log, true)
+}
+
+fn abstract_tokens_with(h: &RepoHandle, before: &Store, after: &Store, log: &[LogOp], classes: bool) -> Result<(Vec<String>, Vec<String>), String> {
     let everything = union(before, after);
     let mut packs: BTreeMap<Id, Vec<(bool, Id)>> = BTreeMap::new();
     let index_all: BTreeMap<Id, IndexFile> = all_index(h, &everything)?.into_iter().collect();
@@ -229,7 +257,29 @@ pub fn abstract_tokens(h: &RepoHandle, before: &Store, after: &Store, log: &[Log
         }
     }
     let clos = closures(h, &everything)?;
-    let mut nm = Namer { files: BTreeMap::new(), blobs: BTreeMap::new() };
+    let mut nm = Namer { files: BTreeMap::new(), blobs: BTreeMap::new(), class_of: None, classes: BTreeMap::new() };
+    if classes {
+        // occurrence places: pack files (as listed), index entries (file, section, position), snapshot closures
+        let mut occ: BTreeMap<(bool, Id), Vec<(u8, Id, usize)>> = BTreeMap::new();
+        for (pid, ks) in &packs {
+            for k in ks {
+                occ.entry(*k).or_default().push((0, *pid, 0));
+            }
+        }
+        for (fid, f) in &index_all {
+            for (n, p) in f.packs.iter().chain(f.packs_to_delete.iter()).enumerate() {
+                for b in &p.blobs {
+                    occ.entry((b.tpe == rustic_core::repofile::BlobType::Tree, *b.id)).or_default().push((1, *fid, n));
+                }
+            }
+        }
+        for (sid, c) in &clos {
+            for k in c.iter().flatten() {
+                occ.entry(*k).or_default().push((2, *sid, 0));
+            }
+        }
+        nm.class_of = Some(occ);
+    }
     let idx_tok = |nm: &mut Namer, id: &Id| -> Result<String, String> {
         let f = index_all.get(id).ok_or("oracle-fail:transient-index-file")?;
         let pk = |nm: &mut Namer, ps: &[rustic_core::repofile::IndexPack]| -> String {
@@ -368,9 +418,234 @@ fn exec_mon(cmd: &str, seed: u64, thorough: bool) -> String {
     "ok".into()
 }
 
+
+// ---------------------------------------------------------------------------------------------------------
+// `c03 big`: the indexer's auto-save.  `Indexer::add_with` (index/indexer.rs) writes an index file on its own
+// as soon as it holds `MAX_COUNT` (50 000) blobs, i.e. in the MIDDLE of a command that adds many blobs; what
+// that file lists must already be stored.  The scenario is a backup whose source chunks into more than 50 000
+// tiny blobs, so at least one index file is written while pack writes are still going on.
+//
+//   c03 big <variant>,<seed>,<q|t> <pre-ops> <run-ops>
+//     variant 0: one file, fixed-size chunker with 16-byte chunks, default pack sizes (packs close at 10 000 blobs)
+//     variant 1: the same with small data packs (many packs before the auto-save)
+//     variant 2: many tiny files (one blob each) in directories, default chunker
+
+pub const BIG_VARIANTS: u64 = 3;
+
+fn big_cfg(variant: u64, seed: u64) -> ConfigOptions {
+    let c = ConfigOptions::default().set_compression(if seed % 2 == 0 { 0 } else { 3 });
+    match variant {
+        0 => c.set_chunker(Chunker::FixedSize).set_chunk_size(ByteSize(16)),
+        1 => c.set_chunker(Chunker::FixedSize).set_chunk_size(ByteSize(16)).set_datapack_size(ByteSize(40_000 + (seed % 7) * 9_000)),
+        _ => c,
+    }
+}
+
+/// number of distinct blobs of the big source: a little more than the indexer's auto-save threshold, so that the index
+/// file is written mid-run and some packs follow it
+fn big_blobs(variant: u64, seed: u64) -> u64 {
+    let max_count = rustic_core::verif::indexer::MAX_COUNT as u64;
+    match variant {
+        2 => max_count + 600 + seed % 400,
+        _ => max_count + 2_000 + (seed % 5) * 2_500,
+    }
+}
+
+fn big_source(variant: u64, seed: u64, k: u64) -> MemSource {
+    let n = big_blobs(variant, seed);
+    let chunk = |i: u64| -> [u8; 16] {
+        let mut c = [0u8; 16];
+        c[..8].copy_from_slice(&i.to_le_bytes());
+        c[8..].copy_from_slice(&(seed.wrapping_mul(0x9e37_79b9_7f4a_7c15) ^ 0xb16).to_le_bytes());
+        c
+    };
+    let mut v = vec![];
+    if variant == 2 {
+        for i in 0..n {
+            let d = format!("d{:03}", i / 700);
+            let f = format!("f{i:06}");
+            v.push(SrcEntry::file(&[d.as_bytes(), f.as_bytes()], &chunk(i)));
+        }
+    } else {
+        let mut data = Vec::with_capacity(n as usize * 16);
+        for i in 0..n {
+            data.extend_from_slice(&chunk(i));
+        }
+        v.push(SrcEntry::file(&[b"big"], &data));
+    }
+    // a small part that changes between the pre-state backup (k = 0) and the command (k = 1)
+    // (visible in the metadata: the parent-based change detection relies on it)
+    let mut e = SrcEntry::file(&[b"small"], &Rng::new(seed ^ k).bytes(40));
+    e.mtime_s += 10 * (k as i64 + 1);
+    e.ctime_s = e.mtime_s;
+    v.push(e);
+    MemSource::new(v)
+}
+
+/// the (small) state before the big backup: one snapshot of a small source
+fn big_prestate(variant: u64, seed: u64) -> Result<Scn, String> {
+    let e = |x: Box<rustic_core::RusticError>| format!("oracle-fail:prestate-{}", crate::util::errkind(&x));
+    let (h, _) = RepoHandle::init(MemBackend::new(), None, &big_cfg(variant, seed)).map_err(e)?;
+    let src = MemSource::new(vec![SrcEntry::file(&[b"small"], &Rng::new(seed).bytes(40)), SrcEntry::file(&[b"old"], &Rng::new(seed ^ 5).bytes(100))]);
+    let snap = do_backup(&h, &src).map_err(e)?;
+    h.be.clear_log();
+    Ok(Scn { h, live: vec![(snap, Some(src))] })
+}
+
+/// every pack an index file lists (unmarked or marked) exists with the size the index says
+fn index_lists_stored_packs(h: &RepoHandle) -> Result<(), String> {
+    let store = h.be.store();
+    for (_, f) in all_index(h, &store)? {
+        for p in f.packs.iter().chain(f.packs_to_delete.iter()) {
+            match store.get(&(repo::ft_idx(FileType::Pack), *p.id)) {
+                Some(b) if b.len() as u32 == p.pack_size() => {}
+                Some(_) => return Err("index-lists-pack-of-other-size".into()),
+                None => return Err("index-lists-missing-pack".into()),
+            }
+        }
+    }
+    Ok(())
+}
+
+/// state oracles after a crashed / failed big backup: a consistent prefix state, and a simple retry heals it
+fn big_state_ok(variant: u64, seed: u64, h: &RepoHandle, live: &[(SnapshotFile, Option<MemSource>)]) -> Result<(), String> {
+    let t0 = std::time::Instant::now();
+    index_lists_stored_packs(h)?;
+    eprintln!("TIMING ils {:?}", t0.elapsed());
+    state_ok("backup", h, live, &BTreeSet::new())?;
+    eprintln!("TIMING state_ok {:?}", t0.elapsed());
+    // the retry: same source, no fault
+    let src = big_source(variant, seed, 1);
+    let snap = do_backup(h, &src).map_err(|e| format!("retry-{}", crate::util::errkind(&e)))?;
+    eprintln!("TIMING retry {:?}", t0.elapsed());
+    index_lists_stored_packs(h).map_err(|e| format!("retry-{e}"))?;
+    match check_errors_retry(h, true) {
+        Some(0) => {}
+        Some(_) => return Err("retry-check-errors".into()),
+        None => return Err("retry-check-failed".into()),
+    }
+    let r = h.open().and_then(|r| r.to_indexed()).map_err(|_| "retry-open-failed".to_string())?;
+    eprintln!("TIMING retry-check {:?}", t0.elapsed());
+    let mut got = repo::read_back(&r, &snap).map_err(|_| "retry-snapshot-unreadable".to_string())?;
+    eprintln!("TIMING readback {:?}", t0.elapsed());
+    got.retain(|e| e.path != b"src");
+    if got != repo::expected(&src) {
+        return Err("retry-snapshot-differs".into());
+    }
+    Ok(())
+}
+
+/// fault positions around every index file written before the last pack write (= the indexer's auto-saves): the two
+/// pack writes before it, the index write itself, the two operations after it — and the first and last operation
+fn big_ks(log: &[LogOp], thorough: bool, seed: u64) -> Vec<usize> {
+    let n = log.len();
+    let last_pack = log.iter().rposition(|o| o.tpe == FileType::Pack && o.write).unwrap_or(0);
+    let mut v: BTreeSet<usize> = BTreeSet::new();
+    for (i, o) in log.iter().enumerate() {
+        if o.tpe == FileType::Index && o.write && i < last_pack {
+            for d in 0..=2usize {
+                if i >= d {
+                    _ = v.insert(i - d);
+                }
+                if thorough && i + d < n {
+                    _ = v.insert(i + d);
+                }
+            }
+            _ = v.insert(i + 1);
+        }
+    }
+    if thorough {
+        _ = v.insert(0);
+        _ = v.insert(n - 1);
+        let mut r = Rng::new(seed ^ 0xb16);
+        for _ in 0..4 {
+            _ = v.insert(r.below(n as u64) as usize);
+        }
+    }
+    v.into_iter().filter(|k| *k < n).collect()
+}
+
+fn exec_big(variant: u64, seed: u64, thorough: bool) -> String {
+    let scn = match big_prestate(variant, seed) {
+        Ok(s) => s,
+        Err(e) => return e,
+    };
+    let before = scn.h.be.store();
+    let src = big_source(variant, seed, 1);
+    if let Err(e) = do_backup(&scn.h, &src) {
+        return format!("oracle-fail:big:full-run-{}", crate::util::errkind(&e));
+    }
+    let log = scn.h.be.log();
+    let n = log.len();
+    if let Err(e) = index_lists_stored_packs(&scn.h).and_then(|()| state_ok("backup", &scn.h, &scn.live, &BTreeSet::new())) {
+        return format!("oracle-fail:big:final-{e}");
+    }
+    let ks = big_ks(&log, thorough, seed);
+    if ks.is_empty() {
+        return "oracle-fail:big:no-auto-saved-index".into();
+    }
+    for k in ks {
+        for crash in if thorough { vec![false, true] } else { vec![false] } {
+            let h = RepoHandle { be: MemBackend::from_store(before.clone()), hot: None, key: scn.h.key.clone() };
+            if crash { h.be.set_crash_at(Some(k)) } else { h.be.set_fail_only(Some(k)) }
+            let res = do_backup(&h, &src);
+            let hit = h.be.log().iter().any(|o| !o.applied);
+            h.be.set_crash_at(None);
+            h.be.set_fail_only(None);
+            if hit && res.is_ok() {
+                return format!("oracle-fail:big:failure-not-reported@{k}/{n}");
+            }
+            if let Err(e) = big_state_ok(variant, seed, &h, &scn.live) {
+                return format!("oracle-fail:big:{}-{e}@{k}/{n}", if crash { "crash" } else { "fail" });
+            }
+        }
+    }
+    "ok".into()
+}
+
+fn parse_big_spec(s: &str) -> Option<(u64, u64, bool)> {
+    let p: Vec<&str> = s.split(',').collect();
+    if p.len() != 3 || !(p[2] == "q" || p[2] == "t") {
+        return None;
+    }
+    let v = p[0].parse::<u64>().ok()?;
+    if v >= BIG_VARIANTS {
+        return None;
+    }
+    Some((v, p[1].parse().ok()?, p[2] == "t"))
+}
+
+pub fn gen_big(variant: u64, seed: u64, thorough: bool) -> String {
+    let spec = format!("{variant},{seed},{}", if thorough { "t" } else { "q" });
+    let fallback = |why: String| format!("c03 big {spec} - X{}", why.split_whitespace().next().unwrap_or("?"));
+    let scn = match big_prestate(variant, seed) {
+        Ok(s) => s,
+        Err(e) => return fallback(e),
+    };
+    let before = scn.h.be.store();
+    if let Err(e) = do_backup(&scn.h, &big_source(variant, seed, 1)) {
+        return fallback(crate::util::errkind(&e));
+    }
+    let log = scn.h.be.log();
+    let after = scn.h.be.store();
+    match abstract_tokens_classes(&scn.h, &before, &after, &log) {
+        Ok((pre, run)) => {
+            let j = |v: Vec<String>| if v.is_empty() { "-".to_string() } else { v.join(";") };
+            format!("c03 big {spec} {} {}", j(pre), j(run))
+        }
+        Err(e) => fallback(e),
+    }
+}
+
 pub fn exec(toks: &[&str]) -> String {
     let toks: Vec<String> = toks.iter().map(|s| (*s).to_string()).collect();
     guarded(move || {
+        if toks.len() == 4 && toks[0] == "big" {
+            return match parse_big_spec(&toks[1]) {
+                Some((v, seed, th)) => exec_big(v, seed, th),
+                None => "bad-op".into(),
+            };
+        }
         if toks.len() != 5 || toks[0] != "mon" || !CMDS.contains(&toks[1].as_str()) {
             return "bad-op".into();
         }
